@@ -38,6 +38,7 @@ class RandSDE(nn.Module):
             self.gb = r(d * self.m)
         self.Hh = r(d, d)
 
+    per_sample = False  # additive noise: scale the diffusion matrix by a per-sample factor
     gsign = None  # when set (diagonal noise): per-coordinate signs of the diffusion (a diffusion may be negative)
     stiff_until = None  # when set: the drift is 40x stronger for t < stiff_until (forces the controller down to dt_min)
 
@@ -53,6 +54,8 @@ class RandSDE(nn.Module):
             return out if self.gsign is None else out * self.gsign
         if self.noise_type == 'additive':
             out = 0.3 * torch.cos(self.gb * (1 + t)).expand(y.shape[0], -1)
+            if self.per_sample:  # state-independent, but not the same matrix for every sample of the batch
+                out = out * (1.0 + 0.25 * torch.arange(y.shape[0], dtype=out.dtype)).unsqueeze(-1)
         else:
             out = 0.3 * torch.tanh(y @ self.G.T + self.gb) + 0.1 * t
         return out.reshape(y.shape[0], self.d, self.m)
@@ -463,6 +466,9 @@ def c17_search(rng, n, tol=1e-12):
         d, m, batch = rng.choice([1, 2, 3]), rng.choice([1, 2, 3]), rng.choice([1, 3])
         seed = rng.randrange(10 ** 6)
         sde = RandSDE(noise, sde_type, d, m, seed)
+        if noise == 'additive' and batch > 1 and rng.random() < 0.6:
+            sde.per_sample = True
+            st['additive_per_sample'] = st.get('additive_per_sample', 0) + 1
         g = torch.Generator().manual_seed(seed)
         y0 = 0.3 * torch.randn(batch, d, generator=g, dtype=torch.float64)
         dt = rng.choice([0.125, 0.0625, 0.1])
@@ -485,7 +491,8 @@ def c17_search(rng, n, tol=1e-12):
         st['by_noise'][noise] = st['by_noise'].get(noise, 0) + 1
         st['worst'] = max(st['worst'], dfc)
         if bad:
-            fails.append(dict(kind='c17', method=method, noise=noise, d=d, m=sde.m, batch=batch, seed=seed, dt=dt, adaptive=adaptive, why=bad))
+            fails.append(dict(kind='c17', method=method, noise=noise, d=d, m=sde.m, batch=batch, seed=seed, dt=dt, adaptive=adaptive, why=bad,
+                              per_sample=sde.per_sample))
             if len(fails) >= 2:
                 break
     return fails, st
